@@ -53,7 +53,7 @@ CLAIMED['C02'] = dict(
     text=("Theorems: explicit value first (callables invoked, falsy honoured), remembered second with no implementation consulted and "
           "no state change, computed third and remembered only after the None/non-finite checks; assign/delete never touch the "
           "remembered value; no evaluation ever changes an explicit value, a registration or a flag (induction over fuel and program). "
-          "Re-evaluation and root-hook evaluation are covered by the correspondence run and the lifecycle oracle (partial)."),
+          "Re-evaluation and root-hook evaluation are covered by the correspondence run and the lifecycle oracle (partial); also stated on the implementation: re-entrant implementations read three times, one function registered twice, explicit callables with short lifetimes, what the solver makes explicit on sibling pass classes."),
     note=HOOK_NOTE, ref="DESIGN.md section 4 C02")
 CLAIMED['C07'] = dict(
     technique="Coq invariant proofs by induction on fuel and program structure (frame, flags restored, outcome classes); model tied by differential runs",
@@ -77,7 +77,7 @@ CLAIMED['C13'] = dict(
           "A slice may be replaced by new units or by units of the replaced window itself.  Translator T-U regenerates every list-editing method of "
           "Unit._SubUnitsList as an effect sequence in source order; theorem: run in its own order each method yields the model's update (all admissible "
           "orders), adopt-before-release is refuted. "
-          "Deep copy of a tree is covered by C12's theorem and the oracle (partial here). Adding a still-listed unit is excluded by the hypothesis 'admissible' and recorded as known "
+          "The deep copy of the unit list is read by T-U as well (owner := copy of the owner, elements through the adopting append). Deep copy of a tree is covered by C12's theorem and the oracle, which continues editing on the copy (partial here). Adding a still-listed unit is excluded by the hypothesis 'admissible' and recorded as known "
           "finding add-listed-unit with a machine-checked refutation witness."),
     note=("Trusted: Coq kernel (no axioms); hand-written model coq/lib/UnitTree.v tied to unit.py/sequence.py by the correspondence "
           "run (600 quick / 4000 thorough histories, full snapshot after every operation); Python list index/slice normalisation "
@@ -114,7 +114,7 @@ CLAIMED['C05'] = dict(
           "vector, which is iterate k-1 of the same solve for k>1 and can never pass on a fresh unit's first iterate; the warning is "
           "issued iff every allowed iteration failed the test; what is stored afterwards. Reproducibility (fresh twin, deep copy, "
           "re-solve within precision, recovery after an aborted solve) is about the numerical iteration map and is exercised on a "
-          "real sequence only (partial)."),
+          "real sequence only (partial); implementations registered for one read and dropped (address re-use) and non-finite elements of array results are stated on the implementation."),
     note=("Trusted: Coq kernel (no axioms; Q arithmetic); model coq/lib/SolveLoop.v tied to Unit.solve by scripted units whose "
           "root-hook vectors follow generated scripts of dyadic numbers (exact in float and Q); log messages identify the outcome."),
     ref="DESIGN.md section 4 C05")
@@ -126,7 +126,7 @@ CLAIMED['C16'] = dict(
           "relations), cooling pipe radius/area, target width/filling ratio, target area/filling ratio, neutral point/angle: supplying "
           "the derived value to a fresh object reproduces the original. Definedness (value or AttributeError, in bounded time, never "
           "RecursionError or an invented value) is checked exhaustively over all subsets of supplied members and all read orders on "
-          "real objects - partial: not a theorem (the cycle-flag mechanism it rests on is proved in C07)."),
+          "real objects, two-roll and three-roll, also overfilled targets, totals of nested sequences and short-lived passes - partial: not a theorem (the cycle-flag mechanism it rests on is proved in C07)."),
     note=("Trusted: Coq kernel; Reals axioms; translator T-A with mock-environment validation; floats abstracted to R; "
           "asin/sin round trips under the stated ranges."),
     ref="DESIGN.md section 4 C16")
@@ -163,7 +163,7 @@ CLAIMED['C09'] = dict(
           "vertices lie at +-gap/2, the opening of a point at depth d is gap + 2d; the three contours map onto each other under 120 "
           "degree turns; gap <-> height (two-roll) and gap <-> inscribed circle diameter / height (three-roll) formulas are mutually "
           "inverse. Face separation of three-roll passes and the usable span are checked on real passes for every catalogue groove "
-          "(partial). Two known findings (gap exactly 0 in three-roll passes; FlatGroove height)."),
+          "(partial); histories (solve - edit - solve, edit + re-evaluation incl. usable width and section, passes built, read and dropped one after another) on the implementation. Two known findings (gap exactly 0 in three-roll passes; FlatGroove height)."),
     note=("Trusted: Coq kernel; Reals axioms; translators T-K and T-A; shapely translate/rotate sampled against the closed formulas."),
     ref="DESIGN.md section 4 C09")
 
